@@ -286,6 +286,8 @@ class Excited(SubCheck):
             a = _run(case, x0, Z, extra={k: (dict(v) if isinstance(v, dict) else v) for k, v in extra.items()})
             b = _run(case, x1, Z, extra={k: (dict(v) if isinstance(v, dict) else v) for k, v in extra.items()})
         except Exception as e:
+            if "A-B matrix has negative eigenvalues" in str(e):
+                return Outcome.inconclusive("rpa_unstable_reference", labels)     # loud, legitimate refusal (C16 owns the stability clause)
             return Outcome.fail(bucket_for("exception", method, Z, [x0, x1]), f"{type(e).__name__}: {e}", labels)
         if notconv(a)[0] or notconv(b)[0]:
             return Outcome.inconclusive("scf_not_converged", labels)
@@ -294,6 +296,23 @@ class Excited(SubCheck):
         d = float(np.abs(ea[:k] - eb[:k]).max())
         worst = {"cis": d}
         if d > 5e-6:
+            # Is it the recorded Davidson defect (a root is skipped and a higher one returned, depending on the orientation)? Then
+            # both lists are subsets of one common spectrum: recompute with more states in both orientations.
+            try:
+                ex2 = {k_: (dict(v_) if isinstance(v_, dict) else v_) for k_, v_ in extra.items()}
+                ex2["excited_states"] = dict(ex2["excited_states"], n_states=min(ns + 6, M.n_ov(case["mol"]["tpl"])))
+                ex2.pop("nonadiabatic", None)
+                a2 = _run(case, x0, Z, extra={k_: (dict(v_) if isinstance(v_, dict) else v_) for k_, v_ in ex2.items()})
+                b2 = _run(case, x1, Z, extra={k_: (dict(v_) if isinstance(v_, dict) else v_) for k_, v_ in ex2.items()})
+                fa_, fb_ = tonp(a2.mol.cis_energies[0]), tonp(b2.mol.cis_energies[0])
+                kk = min(len(fa_), len(fb_))
+                same_spectrum = float(np.abs(fa_[:kk - 1] - fb_[:kk - 1]).max()) < 5e-6
+                member = all(np.abs(fa_ - v_).min() < 5e-6 for v_ in list(ea[:k]) + list(eb[:k]))
+                if same_spectrum and member:
+                    return Outcome.fail("davidson_skips_root_orientation_dependent", f"{ns} states requested: orientation A returns {ea[:k].round(4).tolist()}, orientation B {eb[:k].round(4).tolist()}; "
+                                        f"both are subsets of the common spectrum {fa_[:k + 3].round(4).tolist()}", labels, True, cis=d)
+            except Exception:
+                pass
             return Outcome.fail(bucket_for("cis_energy", method, Z, [x0, x1]), f"excitation energies differ by {d:.3e}", labels, True, cis=d)
         # isolated active root?
         gaps = np.abs(np.diff(ea[: k + 1])) if len(ea) > 1 else np.array([1.0])
@@ -309,7 +328,9 @@ class Excited(SubCheck):
         if fa is not None and fb is not None:
             fa, fb = tonp(fa[0])[:k], tonp(fb[0])[:k]
             # sum over degenerate shells is invariant; compare per root only when isolated from neighbours
-            ok_idx = [i for i in range(k) if all(abs(ea[i] - ea[j]) > 1e-3 for j in range(len(ea)) if j != i)]
+            # per-root comparison only for roots that are isolated from BOTH neighbours: the highest computed root is excluded
+            # because its upper neighbour is unknown (it may be one member of a degenerate shell whose partner was not requested)
+            ok_idx = [i for i in range(min(k, len(ea) - 1)) if all(abs(ea[i] - ea[j]) > 1e-3 for j in range(len(ea)) if j != i)]
             if ok_idx:
                 d = float(np.abs(fa[ok_idx] - fb[ok_idx]).max())
                 worst["osc"] = d
@@ -320,9 +341,17 @@ class Excited(SubCheck):
             return Outcome.fail("nac_requested_but_not_returned", "compute_nac was requested but molecule.nac is not a dict", labels, True)
         if isinstance(na, dict) and isinstance(nb, dict):
             labels.append("nac_compared")
+            top = len(ea) - 1
             for key in na:
                 i, j = key
                 if i >= k or j >= k:
+                    continue
+                # The highest computed state is never compared: its upper neighbour is unknown. (First alarm of this clause on
+                # the unchanged tree: stretched CO, 4 states requested, state 4 is one component of a Pi shell whose partner was
+                # not computed; its NAC with S1 is purely perpendicular to the bond and depends on the arbitrary mixing inside the
+                # shell -- 0.196 vs 0.287 between orientations / tolerances. The code is right.) Linear molecules are skipped
+                # altogether for NACs: every Pi-type state is a member of a degenerate pair.
+                if i >= top or j >= top or M.is_linear(case["mol"]["tpl"]):
                     continue
                 if not all(abs(ea[s] - ea[u]) > 1e-2 for s in (i, j) for u in range(len(ea)) if u != s):
                     continue
